@@ -183,9 +183,68 @@ def aliasing_cases(ic: IndexChecker, rng):
 				return
 
 
+def nested_cases(ic: IndexChecker, rng, depth=0):
+	"""A sub-collection is a collection: indexing it again (views of views, copies and pickles of it) follows the same list model."""
+	import copy, pickle
+	L, n, ctx = ic.L, len(ic.L), ic.ctx
+	if n < 2:
+		return
+	for _ in range(6):
+		c = rng.random()
+		if c < 0.5:
+			a = rng.randrange(n); b = rng.randint(a, n); st = rng.choice([1, 1, 2, -1, -2, 3])
+			idx = slice(a, b, st) if st > 0 else slice(b - 1 if b else None, a - 1 if a else None, st)
+			Ls = L[idx]
+		elif c < 0.8:
+			idx = [rng.randrange(-n, n) for _ in range(rng.randint(1, n + 1))]
+			Ls = [L[i] for i in idx]
+		else:
+			idx = np.array([rng.random() < 0.6 for _ in range(n)])
+			Ls = [L[i] for i in range(n) if idx[i]]
+		try:
+			sub = ic.coll[idx]
+		except Exception as e:
+			ctx.violation('valid-index-raises:nested', f'{ic.kind}[{idx!r}] raised {type(e).__name__}: {e}', ic.w(idx)); return
+		variant = rng.choice(['as-is', 'as-is', 'copy', 'deepcopy', 'pickle'])
+		try:
+			if variant == 'copy':
+				sub = copy.copy(sub)
+			elif variant == 'deepcopy':
+				sub = copy.deepcopy(sub)
+			elif variant == 'pickle':
+				sub = pickle.loads(pickle.dumps(sub))
+		except Exception as e:
+			ctx.count(f'nested:{variant}-not-supported')     # observation only: the statement does not promise copy / pickle support
+			continue
+		ctx.count(f'class:nested:{variant}')
+		ic2 = IndexChecker(ctx, sub, Ls, ic.ks, ic.dt, f'{ic.kind}[{repr(idx)[:40]}]({variant})')
+		m = len(Ls)
+		if len(sub) != m:
+			ctx.violation('wrong-subcollection', f'{ic2.kind}: len {len(sub)} expected {m}', ic.w(idx)); continue
+		for _ in range(12):
+			c = rng.random()
+			if c < 0.35 and m:
+				i = rng.randrange(-m, m)
+				ic2.expect_item(i, Ls[i], 'nested-int')
+			elif c < 0.7:
+				s = slice(rng.choice([None, rng.randint(-m - 1, m + 1)]), rng.choice([None, rng.randint(-m - 1, m + 1)]), rng.choice([None, 1, -1, 2, -2]))
+				ic2.expect_sub(s, Ls[s], 'nested-slice')
+			elif m:
+				seq = [rng.randrange(-m, m) for _ in range(rng.randint(0, m + 1))]
+				ic2.expect_sub(np.array(seq, dtype=rng.choice(['i8', 'i4', 'i2'])), [Ls[i] for i in seq], 'nested-intarray')
+		if variant != 'as-is' and m:
+			# equal content, equal k-mer parameters: must compare equal to a fresh list-backed collection and to the original sub-collection
+			from gambit.sigs.base import SignatureList
+			ref = SignatureList(list(Ls), ic.ks, dtype=ic.dt)
+			ctx.evals += 1
+			if not (sub == ref) or not (ref == sub):
+				ctx.violation('eq-wrong:copy', f'{variant} of {ic.kind}[{idx!r}] does not compare equal to a collection with the same signatures and parameters', ic.w(idx))
+
+
 def all_index_cases(ic: IndexChecker, rng):
 	L, n = ic.L, len(ic.L)
 	aliasing_cases(ic, rng)
+	nested_cases(ic, rng)
 	# ---- integers -------------------------------------------------------------------------------
 	for i in range(-n - 2, n + 3):
 		variants = [('int', i)]
@@ -591,7 +650,7 @@ def run_shard(sh, ctx):
 def finalize(merged, tier, seed, inconclusive):
 	c = merged['counters']
 	for n in ['class:slice', 'class:mask-ndarray', 'class:mask-wrong-length', 'class:intarray:u8', 'class:intarray:i1', 'class:int:np.u8', 'class:int-oob:int',
-	          'class:illtyped', 'class:slice-illtyped', 'class:aliasing', 'class:long-iter', 'class:shared-buffer:array.array', 'class:shared-buffer:__array__', 'long-negative:i1', 'long-negative:i2', 'long-eq:file-vs-file', 'histories', 'op:setslice', 'op:delslice', 'oob_mutations_refused', 'eq:same', 'eq:k', 'eq:prefix', 'eq:elem', 'eq:dtype']:
+	          'class:illtyped', 'class:slice-illtyped', 'class:aliasing', 'class:nested:as-is', 'class:nested-slice', 'class:long-iter', 'class:shared-buffer:array.array', 'class:shared-buffer:__array__', 'long-negative:i1', 'long-negative:i2', 'long-eq:file-vs-file', 'histories', 'op:setslice', 'op:delslice', 'oob_mutations_refused', 'eq:same', 'eq:k', 'eq:prefix', 'eq:elem', 'eq:dtype']:
 		if c.get(n, 0) == 0:
 			inconclusive.append(f'class never observed: {n}')
 	return dict(exhaustive=True, exhaustive_note='index-* shards enumerate every int, slice and (for n<=5) mask over the stated ranges for collection lengths 0..7; histories and equality pairs are sampled')
